@@ -584,6 +584,9 @@ let exec (s : t) (verbose : bool) (f : string array) (obs : string option) : str
     let pat c = List.init ln (fun _ -> n_of_int (Char.code c)) in
     let pa = pat 'A' and pb = pat 'B' in
     let all = ref [] and err = ref None in
+    (* the harness reads the key through the batch once before the race begins (under memory-mapped I/O a read of a file that
+       Backup cut back to its logical size maps it again) *)
+    (match batch_get (get_db s) (get_batch s) k with ((d, _), evs) -> s.db <- Some d; all := evs);
     for i = 0 to n - 1 do
       (match batch_put (get_db s) (get_batch s) k (if i mod 2 = 0 then pa else pb) with
        | (((d, b), e), evs) ->
